@@ -1,5 +1,6 @@
 import Driver.Util
 import NutsModel.C01.Verifier
+import NutsModel.C01.Subject
 import NutsModel.Facts.C01
 open Lean Nuts.Drv Nuts.C01 Nuts
 
@@ -133,8 +134,86 @@ def showRes (r : Res Unit) : String :=
   | .err e => "err:" ++ e
   | .panic _ => "panic"
 
+/-! deepening round: subject validators and util.go helpers -/
+
+def parseResource (j : Json) : Resource := { path := jStr j "path", operations := jStrs j "operations" }
+
+def parseSubjOrg (j : Json) : SubjectView :=
+  { n := jNat j "n", id := jStr j "id", orgNil := if jHas j "orgNil" then jBool j "orgNil" else true,
+    orgName := optStr j "orgName", orgCity := optStr j "orgCity" }
+
+def parseSubjAuth (j : Json) : SubjectView :=
+  { n := jNat j "n", id := jStr j "id", purposeOfUse := jStr j "purposeOfUse", resources := (jArr j "resources").map parseResource }
+
+def validOps : List String := Nuts.Facts.C01.validOperationTypes
+
+/-- the credential with `shapeOK` COMPUTED by the model from the decoded subject -/
+def credWithSubject (E : Env) (d : Json) : Cred :=
+  let c := parseCred d
+  let sv := match findValidator c.types with
+    | .auth => parseSubjAuth (jObj d "subjAuth")
+    | _ => parseSubjOrg (jObj d "subjOrg")
+  c.withSubject validOps E sv
+
+def showOptTime (t : Option Time) : String := match t with | none => "nil" | some x => toString x
+
+def showDate (r : Res (Option Time)) : String :=
+  match r with | .ok t => showOptTime t | .err e => "err:" ++ e | .panic _ => "PANIC"
+
+def parseMethodView (j : Json) : MethodView :=
+  { issuerMethod := optStr j "issuerMethod"
+    subjects := match j.getObjVal? "subjects" with
+      | .ok (.arr a) => some (a.toList.map (fun x => match x with
+          | Json.arr #[Json.str id, Json.str m] => (id, some m)
+          | Json.arr #[Json.str id, _] => (id, none)
+          | _ => ("", none)))
+      | _ => none }
+
+def parseSelfAttested (j : Json) : SelfAttested :=
+  { nProofs := jNat j "nProofs", id := optStr j "id", issuer := jStr j "issuer", issued := jInt j "issued",
+    nSubjects := (optInt j "nSubjects").map Int.toNat, subject0HasId := jBool j "subject0HasId", subject0Id := optStr j "subject0Id" }
+
+def showBool (b : Bool) : String := if b then "true" else "false"
+
 def step (st : St) (j : Json) : St × List String :=
   match jStr j "op" with
+  | "rune-tables" =>
+    let sp := (List.range 0x3100).filter (fun n => isGoSpace (Char.ofNat n))
+    let lo := ((List.range 0x3100).filter (fun n => n ≥ 0x80 && (lowerRune (Char.ofNat n)).toNat < 0x80)).map
+      (fun n => toString n ++ ">" ++ String.singleton (lowerRune (Char.ofNat n)))
+    (st, ["space=" ++ String.intercalate "," (sp.map toString) ++ ";lower=" ++ String.intercalate "," lo])
+  | "validate" =>
+    match j.getObjVal? "doc" with
+    | .ok .null => (st, ["unparseable"])
+    | .ok d =>
+      let E := envOf st j
+      (st, [match validate E (credWithSubject E d) with | .pass => "ok" | .fail _ => "invalid" | .panic _ => "panic"])
+    | _ => (st, ["unparseable"])
+  | "pres-dates" =>
+    match j.getObjVal? "doc" with
+    | .ok .null => (st, ["unparseable"])
+    | .ok d =>
+      let vp := parsePres d
+      (st, ["iss=" ++ showDate (presentationIssuanceDate vp) ++ " exp=" ++ showDate (presentationExpirationDate vp)])
+    | _ => (st, ["unparseable"])
+  | "filter-method" =>
+    match j.getObjVal? "creds" with
+    | .ok (.arr a) =>
+      let views := a.toList.map parseMethodView
+      let idx := filterOnDIDMethod (fun (p : Nat × MethodView) => p.2) ((List.range views.length).zip views) (jStrs j "methods")
+      (st, ["keep=" ++ String.intercalate "," (idx.map (fun p => toString p.1))])
+    | _ => (st, ["unparseable"])
+  | "autocorrect" =>
+    match j.getObjVal? "c" with
+    | .ok .null => (st, ["unparseable"])
+    | .ok cj =>
+      let c := parseSelfAttested cj
+      let r := autoCorrect c (jStr j "requester") "NEW" 1000
+      let idS := match r.id with | none => "nil" | some x => if c.id.isNone then "NEW" else x
+      let issued := if r.issued != c.issued then "NOW" else toString r.issued
+      let nS := match r.nSubjects with | none => "null" | some n => toString n
+      (st, [s!"proofs={r.nProofs} id={idS} issuer={r.issuer} issued={issued} n={nS} has={showBool r.subject0HasId} s0={r.subject0Id.getD "nil"}"])
+    | _ => (st, ["unparseable"])
   | "world" =>
     let hist := match j.getObjVal? "hist" with
       | .ok (.obj kvs) => kvs.toList.map (fun (d, vs) =>
